@@ -96,6 +96,17 @@ Theorem C03_gauss_tables_exactness :
   (forall j, (j < 24)%nat -> Rabs (moment (gl24_half (T:=R)) (2 * j) - / INR (2 * j + 1)) <= / 10 ^ 15).
 Proof. exact P_C03_gauss_tables_exactness. Qed.
 
+(** the quantity the decision cascade is based on: [est] is the full 8-point rule applied to
+    |B''(t)|^2 / (4 |B'(t)|^2) (B'' the second derivative curve; x / 0 = 0 at a zero of B'), i.e. an
+    approximation of (1/2) * integral over [0,1] of |B''|^2 / |B'|^2; the three error estimates are
+    min(est^3 * 2.5e-6, 3e-2), min(est^6 * 1.5e-11, 9e-3), min(est^9 * 3.5e-16, 3.5e-3) times
+    (control polygon length - chord length) by definition ([est8_error] etc. in model/Arclen.v) *)
+Theorem C03_est_is_rule : forall c : CubicBez R,
+  arclen_est (arclen_setup c)
+  = Rsum (map (fun wx => fst wx * (nsq (cubic_deriv2_at c ((1 + snd wx) / 2))
+                                   / (4 * nsq (quad_eval (cubic_deriv c) ((1 + snd wx) / 2))))) gl8).
+Proof. exact arclen_est_is_rule. Qed.
+
 (** ** The recursion: error budget (PARTIAL: conditional on est_conservative) and size *)
 
 (** For any length functional [L] additive under [subdivide] (in particular the true arc length, next
@@ -115,6 +126,18 @@ Theorem C03_cubic_arclen_budget_partial : forall (rho : R) (c : CubicBez R) (acc
   leaves_conservative cubic_true_len rho 20 c acc ->
   Rabs (cubic_arclen c acc - cubic_true_len c) <= acc + rho * cubic_true_len c.
 Proof. exact P_C03_cubic_arclen_budget_partial. Qed.
+
+(** the same with the hypothesis stated globally: IF the estimate is conservative for every cubic and every
+    rule ([est_conservative], UNPROVED — and refuted by testing for rho = 0, see docs/C03.md) and every leaf
+    was admitted by its estimate rather than forced by the depth cap ([cap_not_hit]), THEN the budget holds *)
+Theorem C03_arclen_rec_budget_est_conservative_partial : forall (L : CubicBez R -> R) (rho : R),
+  additive_on_subdivide L -> est_conservative L rho ->
+  forall (rem : nat) (c : CubicBez R) (acc : R),
+    cap_not_hit rem c acc -> Rabs (arclen_rec rem c acc - L c) <= acc + rho * L c.
+Proof. exact arclen_rec_budget_est_conservative. Qed.
+
+Example C03_cap_not_hit_example : forall acc : R, 0 < acc -> cap_not_hit 20 straight_cubic acc.
+Proof. exact cap_not_hit_straight. Qed.
 
 (** non-vacuity: a straight, uniformly parametrised cubic meets the hypothesis for every accuracy
     (with rho = 1e-15: the tables are 16-digit decimals), so its reported length is within
@@ -157,25 +180,24 @@ Theorem C03_itp_bracket : forall (St : Type) (f : St -> R -> St * R) (eps k1 : R
       a <= x <= b /\ (iters <= n <= iters + Z.of_nat fuel)%Z.
 Proof. exact itp_loop_st_spec. Qed.
 
-(** solve_itp terminates within its own budget nmax = n0 + n1_2 iterations with a result in [a,b],
-    unless nmax >= 64 (then [1u64 << nmax] overflows: the documented precondition
-    epsilon > 2^-63 (b - a); a panic when overflow checks are on) *)
+(** solve_itp (as repaired by commit 75101ed: saturating nmax, 2^min(nmax,1023) built exactly) terminates
+    within its own budget nmax = n0 + n1_2 loop entries with a result in [a,b], for every function f,
+    provided nmax <= 1023 (epsilon not below 2^-1023 of the bracket) *)
 Theorem C03_itp_terminates : forall (St : Type) (f : St -> R -> St * R)
     (fuel : nat) (st : St) (a b eps : R) (n0 : Z) (k1 ya yb : R),
-  0 < eps -> a < b -> ya < 0 -> 0 < yb -> 0 <= k1 -> (0 <= n0)%Z -> (64 <= fuel)%nat ->
+  0 < eps -> a < b -> ya < 0 -> 0 < yb -> 0 <= k1 -> (0 <= n0)%Z ->
   let nmax := (n0 + itp_n1_2 a b eps)%Z in
-  match solve_itp_st f fuel st a b eps n0 k1 ya yb with
-  | None => (64 <= nmax)%Z
-  | Some (x, _, n) => a <= x <= b /\ (0 <= n <= nmax)%Z /\ (nmax < 64)%Z
-  end.
+  (nmax <= 1023)%Z -> (nmax <= Z.of_nat fuel)%Z ->
+  exists x st' n,
+    solve_itp_st f fuel st a b eps n0 k1 ya yb = Some (x, st', n) /\ a <= x <= b /\ (0 <= n <= nmax)%Z.
 Proof. exact solve_itp_st_spec. Qed.
 
 (** the pure loop of Solvers.v (common.rs solve_itp with an ordinary closure): the result is an exact
     zero or the midpoint of a final bracket [a',b'] inside [a,b] with g a' < 0 < g b', b' - a' <= 2 eps;
     hence for a non-decreasing g it is within eps of every zero of g *)
 Theorem C03_itp_monotone : forall (g : R -> R) (fuel : nat) (a b eps : R) (n0 : Z) (k1 z : R),
-  0 < eps -> a < b -> g a < 0 -> 0 < g b -> 0 <= k1 -> (0 <= n0)%Z -> (64 <= fuel)%nat ->
-  (n0 + itp_n1_2 a b eps < 64)%Z ->
+  0 < eps -> a < b -> g a < 0 -> 0 < g b -> 0 <= k1 -> (0 <= n0)%Z ->
+  (n0 + itp_n1_2 a b eps <= 1023)%Z -> (n0 + itp_n1_2 a b eps <= Z.of_nat fuel)%Z ->
   exists x, solve_itp fuel g a b eps n0 k1 (g a) (g b) = Some x /\ a <= x <= b /\
             itp_result g eps a b x /\
             ((forall u v, u <= v -> g u <= g v) -> g z = 0 -> g x = 0 \/ Rabs (x - z) <= eps).
@@ -187,6 +209,11 @@ Theorem C03_itp_loops_agree : forall (g : R -> R) (eps k1 : R) (fuel : nat) (it 
   = itp_loop fuel g eps k1 a b ya yb se.
 Proof. exact itp_loop_st_pure. Qed.
 
+Theorem C03_solve_itp_agree : forall (g : R -> R) (fuel : nat) (a b eps : R) (n0 : Z) (k1 ya yb : R),
+  option_map (fun r => fst (fst r)) (solve_itp_st (fun (u : unit) x => (u, g x)) fuel tt a b eps n0 k1 ya yb)
+  = solve_itp fuel g a b eps n0 k1 ya yb.
+Proof. exact solve_itp_st_pure. Qed.
+
 (** non-vacuity of the ITP hypotheses: g x = x - 1/3 on [0,1] with eps = 1/100 *)
 Example C03_itp_example :
   let g := fun x : R => x - / 3 in
@@ -196,25 +223,24 @@ Proof. exact P_C03_itp_example. Qed.
 
 (** ** inv_arclen *)
 
-(** the provided inv_arclen (quadratics, cubics): for every positive accuracy the result lies in [0,1];
-    a request <= 0 gives exactly 0 and a request >= the reported total gives exactly 1; it fails to
-    return only in solve_itp's documented overflow case (accuracy / total < about 2^-62) *)
+(** the provided inv_arclen (quadratics, cubics): for every positive accuracy whose ratio to the reported
+    total keeps solve_itp's budget within 1023 (accuracy / total not below about 2^-1022), the call returns,
+    the result lies in [0,1], a request <= 0 gives exactly 0 and a request >= the reported total exactly 1 *)
 Theorem C03_inv_arclen_range : forall (fuel : nat) (s : PathSeg R) (arclen acc : R),
-  0 < acc -> (64 <= fuel)%nat ->
-  match inv_arclen_default fuel s arclen acc with
-  | Some (t, _, _) =>
-      0 <= t <= 1 /\ (arclen <= 0 -> t = 0) /\ (0 < arclen -> seg_arclen s acc <= arclen -> t = 1)
-  | None =>
-      0 < arclen < seg_arclen s acc /\ (64 <= 1 + itp_n1_2 0%R 1%R (acc / seg_arclen s acc)%R)%Z
-  end.
+  0 < acc -> (1024 <= fuel)%nat ->
+  (0 < arclen < seg_arclen s acc -> (1 + itp_n1_2 0%R 1%R (acc / seg_arclen s acc)%R <= 1023)%Z) ->
+  exists t w br,
+    inv_arclen_default fuel s arclen acc = Some (t, w, br) /\
+    0 <= t <= 1 /\ (arclen <= 0 -> t = 0) /\ (0 < arclen -> seg_arclen s acc <= arclen -> t = 1).
 Proof. exact inv_arclen_range. Qed.
 
 (** PathSeg::inv_arclen (lines use the linear formula): result in [0,1] for a request in [0, total] *)
 Theorem C03_seg_inv_arclen_range : forall (fuel : nat) (s : PathSeg R) (arclen acc : R),
-  0 < acc -> (64 <= fuel)%nat -> 0 < seg_arclen s acc -> 0 <= arclen <= seg_arclen s acc ->
-  match seg_inv_arclen fuel s arclen acc with
-  | Some t => 0 <= t <= 1
-  | None => (64 <= 1 + itp_n1_2 0%R 1%R (acc / seg_arclen s acc)%R)%Z
-  end.
+  0 < acc -> (1024 <= fuel)%nat -> 0 < seg_arclen s acc -> 0 <= arclen <= seg_arclen s acc ->
+  (1 + itp_n1_2 0%R 1%R (acc / seg_arclen s acc)%R <= 1023)%Z ->
+  exists t, seg_inv_arclen fuel s arclen acc = Some t /\ 0 <= t <= 1.
 Proof. exact seg_inv_arclen_range. Qed.
 
+(** non-vacuity of the budget hypothesis: accuracy / total = 1/2 gives n1_2 = 0 *)
+Example C03_itp_budget_example : (1 + itp_n1_2 0%R 1%R (/ 2)%R <= 1023)%Z.
+Proof. exact itp_budget_half. Qed.
